@@ -43,8 +43,8 @@ RULE = ("model: every state of Lifecycle_MC with weight <= MaxW (table entries +
         "Interpreter::transact from a witness history; distinct = distinct (state, transaction) pairs + distinct "
         "(kind, checked, ok, error, via, entry-state) keys of trace events; evaluations = real executions + trace events")
 
-PROPERTIES_WIP = ['C35']
-MANIFEST_WIP = {
+PROPERTIES = ['C35']
+MANIFEST = {
     'C35': dict(category='model_checking',
                 technique='TLA+ spec Lifecycle (tables contracts/blobs/uploads/versions, pure Apply(state, tx) written from the property text, '
                           'RFC 6962 oracle for subsection proofs) model-checked by TLC with action properties; TLC-predicted outcome of every '
@@ -58,8 +58,9 @@ MANIFEST_WIP = {
                      'are judged event by event by Lifecycle_Trace.',
                 note='Contract ids are taken from Contract::id (C15 covers the id formula); the contracts/blobs tables are probed on the ids '
                      'of the universe (MemoryStorage has no iterator for them) plus a Debug fingerprint of the whole storage for "nothing '
-                     'else changed". Bounded: MaxW 4 (quick) / 6 (thorough). Known findings: failed upgrades overwrite the version entry; '
-                     'an aliased (index,total) claim completes a root with wrong bytes.',
+                     'else changed". Bounded: MaxW 4 (quick) / 6 (thorough). Findings of this check: failed upgrades overwrote the version '
+                     'entry (fixed in /repo ffa8196, histories kept as regression); an aliased (index,total) claim completes a root '
+                     'with wrong bytes (known finding lifecycle/Upload/not-next-part/accepted).',
                 design_ref='4/C35'),
 }
 
